@@ -37,6 +37,12 @@ pub enum Op {
     CondWait(ObjId, ObjId),
     /// second half of a wait: blocked until notified *and* the mutex is free
     CondReacquire(ObjId, ObjId),
+    /// second half of a *timed* condvar wait: like `CondReacquire`, and additionally the time-out may
+    /// fire (a costed deviation while anything else can run, free when nothing else can)
+    CondReacquireTimed(ObjId, ObjId),
+    /// timed receive / timed readiness wait on channels
+    RecvTimed(ObjId),
+    SelectReadyTimed(Vec<ObjId>),
     CondNotifyAll(ObjId),
     CondNotifyOne(ObjId),
     Send(ObjId),
@@ -83,6 +89,10 @@ struct Th {
     name: String,
     harness: bool,
     steps: usize,
+    /// the last timed operation of this thread ended by its time-out
+    timed_out: bool,
+    /// time-outs that fired for this thread while nothing else could run
+    free_timeouts: usize,
 }
 
 #[derive(Clone, Debug)]
@@ -93,6 +103,9 @@ pub struct Dec {
     pub cur_enabled: bool,
     /// data choice (free), not a thread choice
     pub data: bool,
+    /// alternatives from this index on are time-outs firing although something else could run:
+    /// each costs one deviation whatever `cur_enabled` says (`n` when there are none)
+    pub costly_from: usize,
 }
 
 #[derive(Clone, Debug, PartialEq)]
@@ -235,13 +248,20 @@ impl State {
                 };
                 notified && matches!(self.objs[*m], Obj::Mutex { owner: None })
             }
-            Op::Recv(c) => self.chan_ready(*c),
+            Op::CondReacquireTimed(c, m) => {
+                let notified = match &self.objs[*c] {
+                    Obj::Condvar { notified, .. } => notified.contains(&tid),
+                    _ => unreachable!(),
+                };
+                notified && matches!(self.objs[*m], Obj::Mutex { owner: None })
+            }
+            Op::Recv(c) | Op::RecvTimed(c) => self.chan_ready(*c),
             Op::SendBounded(c) => match &self.objs[*c] {
                 Obj::Chan { len, receivers, cap, .. } => *len < *cap || *receivers == 0,
                 _ => unreachable!(),
             },
             Op::CondNotifyOneAt(..) => true,
-            Op::SelectReady(chs) => chs.iter().any(|c| self.chan_ready(*c)),
+            Op::SelectReady(chs) | Op::SelectReadyTimed(chs) => chs.iter().any(|c| self.chan_ready(*c)),
             Op::FutexWait(k, val) => {
                 let addr = self.futex_addrs[*k];
                 // the word lives inside an object the waiting thread keeps alive
@@ -249,6 +269,17 @@ impl State {
             }
             Op::Join(t) => self.threads[*t].status == Status::Finished,
             Op::Quiesce => false, // handled specially
+        }
+    }
+    /// a timed operation that is not enabled in the ordinary sense but whose time-out can fire now
+    fn timeout_can_fire(&self, tid: Tid, op: &Op) -> bool {
+        if self.enabled(tid, op) {
+            return false;
+        }
+        match op {
+            Op::CondReacquireTimed(_, m) => matches!(self.objs[*m], Obj::Mutex { owner: None }),
+            Op::RecvTimed(_) | Op::SelectReadyTimed(_) => true,
+            _ => false,
         }
     }
     fn chan_ready(&self, c: ObjId) -> bool {
@@ -259,6 +290,9 @@ impl State {
     }
 
     fn decide(&mut self, n: usize, cur_enabled: bool, data: bool) -> usize {
+        self.decide2(n, cur_enabled, data, n)
+    }
+    fn decide2(&mut self, n: usize, cur_enabled: bool, data: bool, costly_from: usize) -> usize {
         let pos = self.trace.len();
         let chosen = if pos < self.prefix.len() {
             let c = self.prefix[pos];
@@ -272,7 +306,7 @@ impl State {
         } else {
             0
         };
-        self.trace.push(Dec { n, chosen, cur_enabled, data });
+        self.trace.push(Dec { n, chosen, cur_enabled, data, costly_from });
         chosen
     }
 
@@ -342,6 +376,32 @@ impl State {
             }
             cur_enabled = false;
         }
+        // time-outs: while something else can run, a time-out that fires is a deviation (costed like a
+        // preemption); when nothing else can run, time passes and the time-out fires for free -- at
+        // most MAX_FREE_TIMEOUTS times per thread and execution, so that a loop polling with a
+        // time-out ends up blocked (idle) instead of making the execution infinite
+        const MAX_FREE_TIMEOUTS: usize = 3;
+        let mut costly_from = en.len();
+        {
+            let mut tm: Vec<Tid> = vec![];
+            for t in 0..self.threads.len() {
+                if let Status::AtPoint(op) = &self.threads[t].status {
+                    if self.timeout_can_fire(t, op) {
+                        tm.push(t);
+                    }
+                }
+            }
+            if !en.is_empty() {
+                en.extend(tm);
+            } else {
+                // deterministic: the lowest thread that still has a free time-out left
+                if let Some(t) = tm.into_iter().find(|t| self.threads[*t].free_timeouts < MAX_FREE_TIMEOUTS) {
+                    self.threads[t].free_timeouts += 1;
+                    en.push(t);
+                }
+                costly_from = en.len();
+            }
+        }
         if en.is_empty() {
             let blocked: Vec<(String, String)> = self
                 .threads
@@ -356,7 +416,7 @@ impl State {
             self.current = None;
             return;
         }
-        let k = if en.len() > 1 { self.decide(en.len(), cur_enabled, false) } else { 0 };
+        let k = if en.len() > 1 { self.decide2(en.len(), cur_enabled, false, costly_from) } else { 0 };
         if self.aborting {
             return;
         }
@@ -395,6 +455,8 @@ impl State {
             self.ops.push((t, op.clone()));
         }
         self.threads[t].steps += 1;
+        let by_timeout = !self.enabled(t, &op) && matches!(op, Op::CondReacquireTimed(..) | Op::RecvTimed(_) | Op::SelectReadyTimed(_));
+        self.threads[t].timed_out = by_timeout;
         self.apply(t, op);
         self.current = Some(t);
     }
@@ -430,9 +492,10 @@ impl State {
                     waiters.push(t);
                 }
             }
-            Op::CondReacquire(c, m) => {
-                if let Obj::Condvar { notified, .. } = &mut self.objs[c] {
+            Op::CondReacquire(c, m) | Op::CondReacquireTimed(c, m) => {
+                if let Obj::Condvar { notified, waiters } = &mut self.objs[c] {
                     notified.retain(|x| *x != t);
+                    waiters.retain(|x| *x != t);
                 }
                 self.objs[m] = Obj::Mutex { owner: Some(t) };
             }
@@ -677,6 +740,14 @@ pub fn log(s: String) {
         st.log.push(s);
     }
 }
+/// did the calling thread's last timed operation end by its time-out?
+pub fn last_timed_out() -> bool {
+    let st = lock();
+    match me(&st) {
+        Some(t) => st.threads[t].timed_out,
+        None => false,
+    }
+}
 pub fn current_tid() -> Option<Tid> {
     let st = lock();
     me(&st)
@@ -769,7 +840,7 @@ pub fn adopt(n: usize, name: &str) {
         let (ticket, op) = st.pending.pop_front().unwrap();
         let tid = st.threads.len();
         let nm = if n == 1 { name.to_string() } else { format!("{name}{i}") };
-        st.threads.push(Th { status: Status::AtPoint(op), name: nm, harness: false, steps: 0 });
+        st.threads.push(Th { status: Status::AtPoint(op), name: nm, harness: false, steps: 0, timed_out: false, free_timeouts: 0 });
         st.adopted.push((ticket, tid));
     }
     sched().cv.notify_all();
@@ -800,7 +871,7 @@ pub fn spawn<T: Send + 'static>(name: &str, f: impl FnOnce() -> T + Send + 'stat
         assert!(st.active);
         let tid = st.threads.len();
         let epoch = st.epoch;
-        st.threads.push(Th { status: Status::AtPoint(Op::Start), name: name.to_string(), harness: true, steps: 0 });
+        st.threads.push(Th { status: Status::AtPoint(Op::Start), name: name.to_string(), harness: true, steps: 0, timed_out: false, free_timeouts: 0 });
         st.live_os_threads += 1;
         (tid, epoch)
     };
@@ -843,7 +914,7 @@ impl RunResult {
         self.trace.iter().map(|d| d.chosen).collect()
     }
     pub fn preemptions(&self) -> usize {
-        self.trace.iter().filter(|d| !d.data && d.cur_enabled && d.chosen != 0).count()
+        self.trace.iter().filter(|d| !d.data && d.chosen != 0 && (d.cur_enabled || d.chosen >= d.costly_from)).count()
     }
 }
 
@@ -889,7 +960,7 @@ pub fn run_one(prefix: &[usize], cfg: &Config, f: impl FnOnce() + Send + 'static
         st.last_tid = None;
         st.live_os_threads = 1;
         st.monitor = None;
-        st.threads.push(Th { status: Status::Running, name: "main".into(), harness: true, steps: 0 });
+        st.threads.push(Th { status: Status::Running, name: "main".into(), harness: true, steps: 0, timed_out: false, free_timeouts: 0 });
         st.current = Some(0);
     }
     // main harness thread = tid 0, on a fresh OS thread so that unwinding is contained
@@ -981,17 +1052,17 @@ pub fn explore(
         let mut costs = Vec::with_capacity(r.trace.len());
         for d in &r.trace {
             costs.push(cost);
-            if !d.data && d.cur_enabled && d.chosen != 0 {
+            if !d.data && d.chosen != 0 && (d.cur_enabled || d.chosen >= d.costly_from) {
                 cost += 1;
             }
         }
         for i in (prefix.len()..r.trace.len()).rev() {
             let d = &r.trace[i];
-            let extra = if !d.data && d.cur_enabled { 1 } else { 0 };
-            if costs[i] + extra > bound {
-                continue;
-            }
             for alt in (d.chosen + 1)..d.n {
+                let extra = if !d.data && (d.cur_enabled || alt >= d.costly_from) { 1 } else { 0 };
+                if costs[i] + extra > bound {
+                    continue;
+                }
                 let mut p = choices[..i].to_vec();
                 p.push(alt);
                 stack.push(p);
@@ -1006,7 +1077,7 @@ pub fn explore(
 pub fn confirm(choices: &[usize], cfg: &Config, mk: &dyn Fn() -> Box<dyn FnOnce() + Send + 'static>) -> Result<RunResult, String> {
     let a = run_one(choices, cfg, mk());
     let b = run_one(choices, cfg, mk());
-    let shape = |r: &RunResult| r.trace.iter().map(|d| (d.n, d.chosen, d.cur_enabled, d.data)).collect::<Vec<_>>();
+    let shape = |r: &RunResult| r.trace.iter().map(|d| (d.n, d.chosen, d.cur_enabled, d.data, d.costly_from)).collect::<Vec<_>>();
     if a.log != b.log || a.verdict != b.verdict || shape(&a) != shape(&b) || a.panicked != b.panicked {
         return Err(format!("nondeterministic replay: {:?}/{:?} vs {:?}/{:?}", a.verdict, a.log, b.verdict, b.log));
     }
